@@ -66,6 +66,15 @@ def c02(tier, rng):
     for l in POW_BASE:
         for r in POW_EXP:
             cases.append(prog_case(f'{PRELUDE}{P} {l} ** {r};', 'pow'))
+    # right operands that invite a special case (one third, one half, small integers, their negatives and neighbours)
+    # against bases on which the general rule and the special case differ (negative, zero of either sign, Inf, NaN, cubes)
+    magic_l = ['(-8)', '27', '8', '125', '(-27)', '(-0)', '0', 'INF', '(-INF)', 'NAN', '2', '10', '(-1)', '0.001', '16', '(-16)', '1', '0.5', '"8"', '(-0.125)']
+    magic_r = ['(1 / 3)', '(2 / 3)', '(-1 / 3)', '0.3333333333333333', '0.3333333333333334', '0.33333333333333326', '0.5', '(-0.5)', '0.25', '1.5', '2', '3', '4', '(-1)', '(-2)', '(-3)',
+               '0', '(-0)', '1', '(1 / 7)', '0.1', '10', '(1 / 2)', '0.2', '(1 / 5)', '0.75', '1.0000000000000002', '0.9999999999999999']
+    for op in ['**', '/', '%', '*', '<<', '>>', '-', '+']:
+        for l in magic_l:
+            for r in magic_r:
+                cases.append(prog_case(f'{PRELUDE}{P} {l} {op} {r};\n{VAR} e = {r};\n{P} {l} {op} e;', 'magic-operand'))
     for op in ['-', '!', '~']:
         for v_ in VALUES:
             cases.append(prog_case(f'{PRELUDE}{P} {op}{v_};', 'unary'))
@@ -87,7 +96,7 @@ def c02(tier, rng):
         e = g.e_any(Scope(), 4)
         cases.append(prog_case(f'{PRELUDE}{P} {r_expr(e)};', 'random-nested'))
     rule = (f'every binary operator x every ordered pair of {len(VALUES)} value expressions (all kinds; boundary magnitudes +-0, 63, 64, 2^31, 2^53, 2^63, 1e308, Inf, NaN; numeric-looking strings; '
-            f'aliased and fresh arrays/objects; user and built-in functions) = {len(BINOPS) * len(VALUES) ** 2}; ** over {len(POW_BASE)}x{len(POW_EXP)} exactly representable cases; unary operators once and twice; '
+            f'aliased and fresh arrays/objects; user and built-in functions) = {len(BINOPS) * len(VALUES) ** 2}; ** over {len(POW_BASE)}x{len(POW_EXP)} exactly representable cases; 8 operators x {len(magic_l)} bases x {len(magic_r)} notable right operands (thirds, halves, small integers, written as an expression and held in a variable); unary operators once and twice; '
             f'{n} seeded random double pairs written as exact decimal literals; {m} random nested expressions. Non-trivial = prints a value or a diagnostic (all do).')
     return {'cases': cases, 'rule': rule, 'exhaustive': True, 'oracles': [oracle_eq_laws]}
 
@@ -452,6 +461,18 @@ EXPR_TEMPLATES = {
 STMT_FAULTS = [
     ('redeclare', ['{VAR} dup = 1;', '{VAR} dup = 2;'], 1, 'Cannot redeclare variable dup.'),
     ('redeclare-list', ['{VAR} d1 = 1, d1 = 2;'], 0, 'Cannot redeclare variable d1.'),
+    # a declaration list may continue on the next line after an array / object initialiser: the fault is where the name is
+    ('redeclare-list-2nd-line', ['{VAR} e1 = [1],', 'e1 = [2];'], 1, 'Cannot redeclare variable e1.'),
+    ('redeclare-list-3rd-line', ['{VAR} e1 = [1],', 'e2 = [2],', 'e1 = [3];'], 2, 'Cannot redeclare variable e1.'),
+    ('redeclare-list-after-object', ['{VAR} g1 = {a: 1},', 'g2 = {', 'b: 2},', 'g1 = {c: 3};'], 3, 'Cannot redeclare variable g1.'),
+    ('redeclare-outer-in-list', ['{VAR} h1 = [0];', '{VAR} h2 = [1],', 'h3 = [2],', 'h1 = [3];'], 3, 'Cannot redeclare variable h1.'),
+]
+# statements that span lines, the fault not on the first one (compared with the model: which line is named)
+MULTILINE_TEMPLATES = [
+    ['{P} [1,', '2,', 'FAULT];'], ['{P} 1 +', 'FAULT;'], ['{P} 1 +', '2 *', '(FAULT);'], ['{FUN} g2(a, b) {}', 'g2(1,', 'FAULT);'], ['{P} {k: 1,', 'm: FAULT};'],
+    ['{VAR} w = [1,', 'FAULT];'], ['{VAR} w = [1],', 'w2 = [FAULT];'], ['{IF} ({TRUE} &&', 'FAULT) {', '{P} "A1";', '}'], ['{P} (', 'FAULT', ');'], ['{P} "multi', 'line" + FAULT;'],
+    ['{P} /* c', 'c */ FAULT;'], ['{P} FAULT', ';'], ['{P} FAULT +', '1;'], ['{P} -', 'FAULT;'], ['{VAR} o2 = {};', 'o2', '.', 'k', '=', 'FAULT;'], ['{VAR} a2 = [0];', 'a2[', '0', ']', '= FAULT;'],
+    ['{WHILE} (', 'FAULT', ') {', '}'], ['{FOR} ({VAR} i = 0;', 'FAULT;', 'i = i + 1) {', '}'], ['{FOR} ({VAR} i = 0;', 'i < 1;', 'i = FAULT) {', '}'], ['{FUN} g3() {', '{RET}', 'FAULT;', '}', 'g3();'],
 ]
 STMT_TEMPLATES = {
     'top': ['STMTS'],
@@ -522,6 +543,11 @@ def c06(tier, rng):
             src = '\n'.join(lines) + '\n'
             cases.append(prog_case(src, 'planted-fault', stdin=b'L1\n', note=note))
             cli.append(CliCase('planted-fault', ['p.bn'], {'p.bn': src.encode()}, b'L1\n', 'p.bn', note=note))
+    for tl in MULTILINE_TEMPLATES:
+        for fname, ftext, fmsg in EXPR_FAULTS:
+            body = [fill(l).replace('FAULT', ftext) for l in tl]
+            for pad in (0, 1):
+                cases.append(prog_case('\n'.join(c06_program(body, pad)) + '\n', 'fault-on-later-line', stdin=b'L1\nL2\n'))
     for stm, fmsg in STRAY:
         for ctx in (['STRAY'], ['{', 'STRAY', '{P} "A1";', '}'], ['{IF} ({TRUE}) {', 'STRAY', '}'], ['{IF} ({TRUE})', 'STRAY']):
             body = [fill(l).replace('STRAY', stm) for l in ctx]
@@ -538,7 +564,7 @@ def c06(tier, rng):
         cases.append(prog_case(src, 'fault-free-candidate'))
         if i % 10 == 0:
             cli.append(CliCase('fault-free-candidate', ['p.bn'], {'p.bn': src.encode()}, b'', 'p.bn'))
-    rule = (f'{len(EXPR_FAULTS)} expression faults x {len(EXPR_TEMPLATES)} syntactic positions x {len(wraps)} enclosing constructs, {len(STMT_FAULTS)} statement faults x {len(STMT_TEMPLATES)} positions, stray break/continue/return in 4 contexts; '
+    rule = (f'{len(EXPR_FAULTS)} expression faults x {len(EXPR_TEMPLATES)} syntactic positions x {len(wraps)} enclosing constructs, {len(STMT_FAULTS)} statement faults x {len(STMT_TEMPLATES)} positions, stray break/continue/return in 4 contexts; {len(MULTILINE_TEMPLATES)} statements spanning several lines with each expression fault on a later line (compared with the model: the line named); '
             'every program prints before the fault ("B…"), would print after it ("A…") and would prompt and read stdin (probe); checked on the implementation alone: first diagnostic = expected message on the line of the fault, '
             f'nothing of "A…"/PROMPT/PROBE after it on stdout, bounded time, status 70 through the CLI; {n} fault-free programs: no diagnostic, status 0. Non-trivial = every planted-fault case.')
     return {'cases': cases, 'cli': cli, 'rule': rule, 'exhaustive': True, 'timeout_ms': 3000, 'cli_timeout': 5,
@@ -645,9 +671,42 @@ def c07(tier, rng):
                 toks[k] = r.choice(['nil', '[]', '{}', '0', '-1', '""', 'f', TRUE, toks[k]])
             src = ' '.join(toks)
         cases.append(prog_case(src, 'random-faulty'))
+    # input lines that are not well-formed UTF-8 (a multi-byte character cut off at every point, stray continuation bytes,
+    # overlong forms, surrogates, 0xFE/0xFF) in every position a string can be consumed.  The model has no ill-formed
+    # strings, so these are decided on the executable alone: the run ends with status 0 or 70, never abnormally.
+    cli = []
+    INP = N['input']
+    uses = ['{P} X;', '{P} [X];', '{P} {{k: X}};', '{P} X + 1;', '{P} 1 + X;', '{P} X - 1;', '{P} 1 - X;', '{P} X * 2;', '{P} X / 2;', '{P} X % 2;', '{P} X ** 2;', '{P} 2 ** X;', '{P} -X;', '{P} ~X;', '{P} !X;',
+            '{P} X & 1;', '{P} X | 1;', '{P} X ^ 1;', '{P} X << 1;', '{P} 1 >> X;', '{P} X < 1;', '{P} 1 >= X;', '{P} X == "a";', '{P} X == X;', '{P} X + X;', '{P} [1, 2, 3][X];', '{V} a = [1]; a[X] = 2;',
+            '{P} {ABS}(X);', '{P} {SQRT}(X);', '{P} {ROUND}(X);', '{P} {POW}(X, 2);', '{P} {MAX}(X, 1);', '{P} {MIN}([X, 1]);', '{P} {SIN}(X);', '{P} {LEN}([X]);', '{P} {APP}([], X);', '{P} {REM}([1], X);',
+            '{V} o = {{}}; o.k = X; {P} o; {P} {KEYS}(o); {P} {VALS}(o);', '{P} {DEL}({{a: 1}}, X);', '{P} {INP}(X);', '{IF} (X) {P} 1;', '{P} X || 1;', '{P} X && 1;', '{P} "" + X + "";', 'X();']
+    tails = [b'\xe0', b'\xe0\xa7', b'\xe0\xa6', b'\xe0\xa7\xa6\xe0\xa7', b'\xa7', b'\xa6\xa7', b'\xc3', b'\xf0\x9f', b'\xf0\x9f\x98', b'\xc0\xaf', b'\xed\xa0\x80', b'\xff', b'\xfe\xff', b'\xf8\x88\x80\x80\x80',
+             b'\xe0\xa7\xa6', '৭'.encode(), b'\x00', b'\xe0\x80\x80']
+    heads = [b'', b'12', '১২'.encode(), b'-', b'1.', b'x']
+    sub = lambda t: (t.replace('{P}', P).replace('{V}', VAR).replace('{IF}', IF).replace('{ABS}', N['abs']).replace('{SQRT}', N['sqrt']).replace('{ROUND}', N['round']).replace('{POW}', N['pow'])
+                     .replace('{MAX}', N['max']).replace('{MIN}', N['min']).replace('{SIN}', N['sin']).replace('{LEN}', N['len']).replace('{APP}', N['append']).replace('{REM}', N['remove'])
+                     .replace('{KEYS}', N['keys']).replace('{VALS}', N['values']).replace('{DEL}', N['delete']).replace('{INP}', INP).replace('{{', '{').replace('}}', '}'))
+    for u in uses:
+        src = f'{VAR} X = {INP}();\n' + sub(u) + f'\n{P} "end";\n'
+        for tl in (tails if tier == 'thorough' else tails[:9]):
+            for hd in (heads if tier == 'thorough' else heads[:3]):
+                for after in (b'', b'5'):
+                    cli.append(CliCase('impl-only-ill-formed-input', ['p.bn'], {'p.bn': src.encode()}, hd + tl + after + b'\nnext\n', 'p.bn'))
     rule = (f'17 indexing/property/call/store/operator forms x {len(kv)}^2 value kinds and boundary magnitudes; every built-in x 0..3 arguments x every kind; recursion to depth 400, values and expressions nested 400 deep; '
+            f'{len(cli)} runs of the executable on input lines that are not well-formed UTF-8 (characters cut off at every byte, stray continuation bytes, overlong forms, surrogates) consumed in {len(uses)} ways (implementation alone: status 0 or 70, never a Go panic); '
             f'{n} seeded grammar-based programs with a 6% fault rate, a third of them token-mutated; the two known findings (cyclic value printed, unbounded recursion) are replayed on every run. Non-trivial = prints or diagnoses.')
-    return {'cases': cases, 'rule': rule, 'exhaustive': True, 'fuel': 10000, 'timeout_ms': 20000}
+    return {'cases': cases, 'cli': cli, 'cli_oracles': [cli_oracle_no_abnormal], 'rule': rule, 'exhaustive': True, 'fuel': 10000, 'timeout_ms': 20000}
+
+def cli_oracle_no_abnormal(clis):
+    bad = []
+    for c in clis:
+        if not c.label.startswith('impl-only-ill-formed'):
+            continue
+        if c.timed_out:
+            bad.append((c, 'the run did not finish')); continue
+        if c.status not in (0, 70) or b'panic:' in c.err or b'fatal error:' in c.err or b'goroutine ' in c.err:
+            bad.append((c, f'abnormal termination: status {c.status}, stderr starts {c.err[:160]!r}'))
+    return bad
 
 # ---------------------------------------------------------------- C11
 
@@ -857,6 +916,15 @@ def c14(tier, rng):
         f'{N["max"]}({pv("m1", 1)}, {pv("m2", 5)}, {pv("m3", 2)})',
         f'{N["append"]}({pv("arr", "A")}, {pv("x1", 1)}, {pv("x2", 2)})',
     ]
+    # an operand that is a constant invites a special case: every operator with a notable constant on one side and, on
+    # the other, an operand whose evaluation is observable at depth two (probes inside a subscript, an argument, a store)
+    consts = ['0', '1', '2', '3', '0.5', '(-1)', '10', '"x"', 'nil', TRUE]
+    deep = [f'A[{pv("i", 0)} + {pv("j", 1)}]', f'A[x + (x = x + 1)]', f'{N["abs"]}({pv("a", 1)} + {pv("b", 1)})', f'[{pv("e", 4)}, 5][{pv("k", 0)} * {pv("m", 1)}]', f'(O.k = {pv("s", 7)})']
+    for op in allops:
+        for cst in (consts if tier == 'thorough' else consts[:7]):
+            for d_ in deep:
+                exprs.append(f'{d_} {op} {cst}')
+                exprs.append(f'{cst} {op} {d_}')
     for e in exprs:
         cases.append(prog_case(PROBE_PRE + f'{P} {e};\n{P} x;\n{P} A;\n{P} O;\n', 'probe-order'))
     # short circuit and truthiness, every value kind on the left
@@ -943,6 +1011,14 @@ def c15(tier, rng):
     for c in beng:
         strs.append(c)
         strs.append('ক' + c)
+        # conjunct and joiner spellings: letter + hasant + joiner, joiner + letter, letter + hasant + letter
+        for j in ['\u200d', '\u200c']:
+            strs.append(c + '\u09cd' + j); strs.append(j + c); strs.append(c + j + '\u09af')
+        for d in ['\u09af', '\u09b0', '\u09a4', '\u09b7']:
+            strs.append(c + '\u09cd' + d)
+    # line-break and control characters inside a string are characters like any other
+    for brk in ['\r\n', '\r', '\n\r', '\n\n', '\r\r\n', '\t\r\n', '\x0b', '\x0c', '\x00', '\x1b', '\x7f', '\u0085', '\u2028', '\u2029', '\ufeff', '\u00a0', '\u00ad', '\u200b', '\u200e', '\u202e', '\ufffd', '\ufffe']:
+        strs.append('ab' + brk + 'cd'); strs.append(brk); strs.append(brk + 'x'); strs.append('x' + brk)
     if tier == 'thorough':
         for a in special:
             for c in beng:
@@ -979,7 +1055,7 @@ def c15(tier, rng):
         sq = sq + sq[:2]
         cases.append(prog_case(''.join(f'{P} {e};\n' for e in sq), 'print-sequence'))
     rule = (f'{len(bitsl)} doubles (boundary list, powers of ten +-1 ulp around both exponent switches, {n} seeded random, written as exact decimal literals) printed alone, spliced by + on either side, and inside an array and an object; '
-            f'{len(strs)} strings (Latin, Bangla, combining-mark orders, Hangul, singletons, every Bengali-block code point alone and after a consonant, pairs around the decomposable characters) printed alone, nested, and concatenated; constants and callables; sequences of prints in one run (signed zeros in both orders, repeated and equal-but-differently-written values, random sequences). '
+            f'{len(strs)} strings (Latin, Bangla, combining-mark orders, Hangul, singletons, every Bengali-block code point alone, after a consonant, before hasant + ZWJ / ZWNJ / ya / ra / ta / ssa and after a joiner; CR LF and 20 other line-break / control / format characters inside a string; pairs around the decomposable characters) printed alone, nested, and concatenated; constants and callables; sequences of prints in one run (signed zeros in both orders, repeated and equal-but-differently-written values, random sequences). '
             'Checked on the implementation alone: printing is NFC-idempotent for the repertoire, number text re-reads to the same double, "" + v equals the printed text. Non-trivial = all.')
     return {'cases': cases, 'rule': rule, 'exhaustive': False, 'oracles': [oracle_c15]}
 
@@ -1030,6 +1106,9 @@ def c16(tier, rng):
               f'{N["values"]}({{k: {q}}})[0]', f'("" + {q})', f'({q} + "")']
         if lit.isascii() and lit.isdigit() and not (len(lit) > 1 and lit[0] == '0'):
             ps += [f'("" + {lit})', f'({lit} + "")', f'("" + ({lit} + 0))']      # the text of a number is the string
+        if any(ch in lit for ch in '\r\n') or lit != lit.strip():
+            ps = [p_ for p_ in ps if N['input'] not in p_]      # not one stdin line / trimmed by ইনপুট
+            ps += [f'("{lit[:1]}" + "{lit[1:]}")', f'("{lit[:-1]}" + "{lit[-1:]}")'] + [f'("{lit[:k]}" + "{lit[k:]}")' for k in range(1, len(lit)) if lit[k - 1] in '\r\n\t ' or lit[k] in '\r\n\t ']
         return ps
     def num_producers(n):
         ps = [str(n), f'({n - 1} + 1)', f'({n} & {n})', f'({n} | 0)', f'({n} ^ 0)', f'(~(~{n}))', f'({n * 2} >> 1)', f'({n * 4} / 4)', f'{N["round"]}({n}.2)', f'{N["abs"]}(0 - {n})',
@@ -1059,7 +1138,7 @@ def c16(tier, rng):
                     continue        # two reads in one program: not the same stdin position
                 src = pre + sub(ctx).replace('H2', lit_text).replace('H', prod) + '\n'
                 cases.append(prog_case(src, f'{kind}-context', stdin=stdin, group=f'{kind}:{value}:{ci}', note=(pi, prod)))
-    for lit in ['abc', '', '12', '3', 'k', '০৭', 'a b', 'ন\u09df', 'প\u09dc\u09be', 'cafe\u0301', 'ম\u09c7\u09beট']:
+    for lit in ['abc', '', '12', '3', 'k', '০৭', 'a b', 'ন\u09df', 'প\u09dc\u09be', 'cafe\u0301', 'ম\u09c7\u09beট', 'ab\r\ncd', 'x\ny', 'a\rb', 'a\tb', ' pad ', 'q\n', '\r\n']:
         ps = str_producers(lit) if lit else ['""', '("" + "")', '({k: ""}).k', '[""][0]', 'rs("")', f'{N["input"]}()']
         emit('string', lit, ps, '"' + lit + '"', (lit + '\nsecond\n').encode())
     for n in ([3, 8, 1000000, 2097152] if tier == 'quick' else [3, 8, 1, 0, 64, 1000000, 2097152, 4294967296, 100000000]):
@@ -1070,7 +1149,7 @@ def c16(tier, rng):
         return [t, f'({t} + 0)', f'(2 * {t} / 2)', f'rs({t})', f'[{t}][0]', f'({{k: {t}}}).k', f'(0 - (0 - {t}))', f'{N["max"]}({t}, {t})', f'({t} * 1)', f'(("" + {t}) * 1)']
     for t in (['1.5', '(-1)', '0', '2.5'] if tier == 'quick' else ['1.5', '(-1)', '0', '2.5', '0.5', '(-0.5)', '(-2)', '4.000001', '1000000000000000000000', '0.1']):
         emit('number', t, frac_producers(t), t, b'x\ny\n')
-    rule = (f'{len(contexts)} one-hole contexts (print alone / nested, both sides of ==, condition, !, ||, &&, index, key, every operator position, every built-in argument, callee, property base) x 7 strings and {8 if tier == "quick" else 19} numbers (non-negative integers, fractions, negatives, zero), '
+    rule = (f'{len(contexts)} one-hole contexts (print alone / nested, both sides of ==, condition, !, ||, &&, index, key, every operator position, every built-in argument, callee, property base) x 18 strings (incl. strings with CR LF, LF, CR, TAB inside and padded ones) and {8 if tier == "quick" else 19} numbers (non-negative integers, fractions, negatives, zero), '
             'each produced 6..20 ways (literal, concatenation, property, element, function result, ইনপুট, keys/values listing; arithmetic, every bitwise operator, shifts, built-ins); all producers of one value must behave identically in each context (implementation alone) and as the model says. Non-trivial = all.')
     return {'cases': cases, 'rule': rule, 'exhaustive': True, 'oracles': [oracle_same_in_group]}
 
@@ -1242,7 +1321,7 @@ def t_synonyms(toks, rng):
     m = {'&&': KW['and'], '||': KW['or'], KW['and']: '&&', KW['or']: '||'}
     return [(tt, m[lx_] if lx_ in m and rng.chance(2, 3) else lx_) for tt, lx_ in toks]
 
-def t_rename(toks, rng):
+def t_rename(toks, rng, pool=None):
     fixed = set(NAT.values()) | {'input'}
     for i, (tt, lx_) in enumerate(toks):
         if tt == TT_IDENT:
@@ -1252,8 +1331,9 @@ def t_rename(toks, rng):
     for tt, lx_ in toks:
         if tt == TT_IDENT and lx_ not in fixed and lx_ not in names:
             names.append(lx_)
-    names = [n for n in names if rng.chance(2, 3)][:len(FRESH)]
-    pool = list(FRESH)
+    present = {lx_ for tt, lx_ in toks if tt == TT_IDENT}
+    pool = [w for w in (pool or FRESH) if w not in present]      # a new name must not capture a name the program already uses
+    names = [n for n in names if rng.chance(2, 3)][:len(pool)]
     mp = {}
     for n in names:
         mp[n] = pool.pop(rng.below(len(pool)))
@@ -1355,8 +1435,10 @@ def norm_out(resp, back=None):
     o, e = untext(f['O']), untext(f.get('E', ''))
     e = _re.sub(r'\[line \d+\]', '[line N]', e)
     if back:
+        # whole names only (a renamed name may be a piece of another word of the output)
         for new, old in sorted(back.items(), key=lambda kv: -len(kv[0])):
-            o, e = o.replace(new, old), e.replace(new, old)
+            pat = _re.compile(r'(?<![\w\u0980-\u09FF])' + _re.escape(new) + r'(?![\w\u0980-\u09FF])')
+            o, e = pat.sub(lambda m: old, o), pat.sub(lambda m: old, e)
     return (o, e, f.get('F'))
 
 def c18(tier, rng):
@@ -1383,6 +1465,9 @@ def c18(tier, rng):
         variants.append(('synonyms', join_tokens(t_synonyms(toks, r), r, False), None))
         rn, back = t_rename(toks, r)
         variants.append(('rename', join_tokens(rn, r, False), back))
+        from .words import WORDS
+        rw_, backw = t_rename(toks, r, pool=[w for w in WORDS if ord(w[0]) >= 0x980])   # English words may be printed by the program itself
+        variants.append(('rename', join_tokens(rw_, r, False), backw))
         rq, backq = t_rename_equiv(toks, r)
         variants.append(('rename', join_tokens(rq, r, False), backq))
         t2, back2 = t_rename(t_synonyms(t_digits(toks, r), r), r)
@@ -1425,8 +1510,8 @@ def c18(tier, rng):
         cases.append(prog_case(pre_ + f'{P} {chain};\n', 'base', group=g))
         cases.append(prog_case(pre_ + f'{P} {grouped};\n', 'ladder-parens', group=g))
     rule = (f'every ordered pair of the {len(allops)} binary operators, and every prefix operator before / after each, written plain and parenthesised as the ladder prescribes ({gi} pairs of programs); '
-            f'{len(bases)} programs (generated, a third fault-free, and the shipped examples) x 10 variants: re-laid-out twice with blanks, tabs, line breaks outside ধরি declarations and {len(COMMENTS)} comment shapes between tokens; '
-            'digits swapped between scripts; && / এবং and || / বা exchanged; user identifiers renamed to fresh Latin / Bangla names, and to names that differ only by canonical equivalence (precomposed / split vowel signs, nukta letters); all of these combined; redundant parentheses around value-producing sub-expressions; never-executed code inserted. '
+            f'{len(bases)} programs (generated, a third fault-free, and the shipped examples) x 11 variants: re-laid-out twice with blanks, tabs, line breaks outside ধরি declarations and {len(COMMENTS)} comment shapes between tokens; '
+            'digits swapped between scripts; && / এবং and || / বা exchanged; user identifiers renamed to fresh Latin / Bangla names, to natural-language words that are not keywords (vlib/words.py), and to names that differ only by canonical equivalence (precomposed / split vowel signs, nukta letters); all of these combined; redundant parentheses around value-producing sub-expressions; never-executed code inserted. '
             'All variants of a program must print the same and fail the same (line numbers and renamed names aside) on the implementation alone, and each must agree with the model. Non-trivial = all.')
     return {'cases': cases, 'rule': rule, 'exhaustive': False, 'oracles': [oracle_c18]}
 
